@@ -286,6 +286,24 @@ def all_def_exprs(fn, l, depth=64):
     return out
 
 
+def defs_through_copies(fn, l, depth=4, _seen=None):
+    """The definitions of local l, where a definition that merely copies / moves another whole local (the result slot of a helper
+    that was inlined, a temporary) is replaced by that local's definitions."""
+    _seen = _seen if _seen is not None else set()
+    if l in _seen or depth < 0:
+        return []
+    _seen.add(l)
+    out = []
+    for dd in defs_of(fn).all(l):
+        if dd[0] == "stmt" and dd[3]["rv"]["k"] == "use" and dd[3]["rv"]["op"].get("k") in ("copy", "move") and "p" not in dd[3]["rv"]["op"]["pl"] \
+                and dd[3]["rv"]["op"]["pl"]["l"] > fn.arg_count:
+            sub = defs_through_copies(fn, dd[3]["rv"]["op"]["pl"]["l"], depth - 1, _seen)
+            out.extend(sub if sub else [dd])
+        else:
+            out.append(dd)
+    return out
+
+
 def adt_field_uses(fn, adt, blocks=None):
     """[(bb, field name)] for every place projection through a field of struct/enum `adt` in the given blocks of fn (default: all
     non-cleanup blocks), statements and terminators alike."""
